@@ -366,6 +366,7 @@ func ZZ_C18_send_request() {
 // and never answers; the call must be back, with an error and the entry marked cancelled, no later
 // than its time-out after it began.
 func ZZ_C18_send_request_deadline() {
+	zzEngineOnly() // elapsed time is exact only on the virtual clock; a real timer fires a little late
 	zzSchedule(zzParam("sched", 2))
 	bc := newBatchConn(1, 8, new(uint32))
 	bc.batchCommandsCh = make(chan *batchCommandsEntry) // unbuffered: the enqueue waits for the loop
